@@ -490,3 +490,26 @@ func (a *IndexA) step(s search.Searcher, sctx *search.SearchContext, c Call) (r 
 	}
 	return -3, nil
 }
+
+// Judge wraps core.JudgeRecords for the judge specs of this package. TLC
+// reports a violation in the INITIAL state (the first record failing) in a
+// form the runtime does not map to a record index, so an always-valid dummy
+// record is put first and the indices are shifted back.
+func Judge(c *core.Ctx, module, cfg string, dummy map[string]any, records []any, maxFail int, opts ...core.TLCOpt) (map[int]string, error) {
+	if len(records) == 0 {
+		return map[int]string{}, nil
+	}
+	recs := append([]any{dummy}, records...)
+	bad, err := c.JudgeRecords(module, cfg, recs, maxFail, opts...)
+	out := map[int]string{}
+	for i, inv := range bad {
+		if i == 0 {
+			return out, fmt.Errorf("judge %s/%s rejected the dummy record (%s)", module, cfg, inv)
+		}
+		out[i-1] = inv
+	}
+	return out, err
+}
+
+var DummyQuery = map[string]any{"corpus": []any{}, "q": map[string]any{"type": "none"}, "runs": []any{}}
+var DummySearcher = map[string]any{"corpus": []any{}, "q": map[string]any{"type": "none"}, "enum": []any{}, "leaves": []any{}, "progs": []any{}}
